@@ -89,7 +89,7 @@ class Engine:
         s.fnaddr = {}; s.addrfn = {}; s.gaddr = {}
         s.solver = z3.Solver(); s.nondet_n = 0; s.trace = []; s.di = 0; s.icount = 0
         s.vfs = {}; s.files = {}; s.events = 0; s.frozen = False; s.die_after = None; s.die_base = 0; s.vfs_mtime = {}; s.vfs_clock = 1
-        s.model = None; s.nondets = []; s.obs = []; s.reached = []; s.notes = []; s.depth = 0
+        s.model = None; s.decided = {}; s.nondets = []; s.obs = []; s.reached = []; s.notes = []; s.depth = 0
         s.violations = []; s.clock = 0; s.errno_addr = None; s.asserts_seen = {}
         s.env = {}; s.tty = 0; s.vfs_dirs = set(); s.vfs_id = {}; s.expect_fatal = False
         s.vfs['<stdout>'] = []; s.vfs['<stderr>'] = []
@@ -538,6 +538,13 @@ class Engine:
     def branch(s, c):
         if not is_sym(c): return bool(c)
         c = to_bool(c)
+        # a condition already decided on this path stays decided (the path condition only grows): no decision, no query
+        k = c.get_id(); known = s.decided.get(k)
+        if known is not None: return known[1]
+        r = s.branch1(c)
+        s.decided[k] = (c, r)              # keep c alive so that its id is not reused
+        return r
+    def branch1(s, c):
         def opts():
             mc, mn = s.feasible_sides(c); o = []
             if mc is not None: o.append((True, c, mc))
@@ -547,6 +554,12 @@ class Engine:
     def concretize(s, v, n, limit=256):
         if not is_sym(v): return v
         if z3.is_bool(v): v = from_bool(v, n)
+        k = v.get_id(); known = s.decided.get(('c', k))
+        if known is not None: return known[1]
+        r = s.concretize1(v, n, limit)
+        s.decided[('c', k)] = (v, r)       # the value chosen for this term on this path stays its value
+        return r
+    def concretize1(s, v, n, limit):
         def opts():
             o = []; s.solver.push()
             while len(o) <= limit:
